@@ -29,6 +29,7 @@ type Ctx struct {
 
 	cg        *callGraph // lazily built
 	cancelers map[*ssa.Function]bool
+	freshBusy map[*ssa.Function]bool
 
 	Tier string
 
@@ -157,6 +158,15 @@ func loadRepo(dir string) (*Ctx, error) {
 func (c *Ctx) fnName(f *ssa.Function) string {
 	if f == nil {
 		return "<nil>"
+	}
+	if len(fnFullAlias) > 0 {
+		root := f
+		for root.Parent() != nil {
+			root = root.Parent()
+		}
+		if old, ok := fnFullAlias[root]; ok {
+			return old + strings.TrimPrefix(f.String(), root.String())
+		}
 	}
 	s := f.String()
 	if len(typeRenames) > 0 {
